@@ -63,7 +63,9 @@ func (s *Staking) replaySlashing(ctx *context) ([]Evidence, []Evidence, []*commo
 		return nil, nil, nil, fmt.Errorf("empty evidences of number: %d", header.Number)
 	}
 
-	parentHeight := new(big.Int).Set(ctx.chain.CurrentHeader().Number)
+	// the height of the block's own parent, NOT the local head: a block must replay identically
+	// whatever the importing node's current head is (side chains, re-execution).
+	parentHeight := new(big.Int).Sub(header.Number, common.Big1())
 
 	var verifiedEvidences []Evidence
 	for _, evidence := range evidences {
@@ -134,7 +136,7 @@ func (s *Staking) slashing(ctx *context) ([]Evidence, []Evidence, []*common.Addr
 
 	var evidences = make([]Evidence, len(s.evidences))
 	copy(evidences, s.evidences)
-	parentHeight := s.blockChain.CurrentHeader().Number //check parent block
+	parentHeight := new(big.Int).Sub(ctx.header.Number, common.Big1()) //check parent block (the one being built on, see replaySlashing)
 	confirmedEvidences, pendingEvidences, affectedValidators := s.processEvidences(ctx.config, ctx.db, ctx.header, parentHeight, ctx.receipt, evidences)
 	s.evidences = pendingEvidences
 	affected = len(affectedValidators)
